@@ -29,9 +29,17 @@ unexpected_cfgs = { level = "allow", check-cfg = ['cfg(kani)'] }
 
 REPLAY_MAIN = """use fam::src::{Src, BytesSrc, RandSrc};
 type Out = Vec<(String, String, String)>;
-fn run<Z9: Src>(pid: &str, s: &mut Z9, out: &mut Out) {
+fn run0<Z9: Src>(pid: &str, s: &mut Z9, out: &mut Out) {
     match pid {
 %s        _ => println!("no replay for {}", pid),
+    }
+}
+/// a panic inside the real code (or inside something it must not have called) is an observation too
+fn run<Z9: Src>(pid: &str, s: &mut Z9, out: &mut Out) {
+    let r = std::panic::catch_unwind(std::panic::AssertUnwindSafe(|| run0(pid, s, out)));
+    if let Err(e) = r {
+        let msg = e.downcast_ref::<&str>().map(|x| x.to_string()).or_else(|| e.downcast_ref::<String>().cloned()).unwrap_or_default();
+        out.push(("the call returns".to_string(), format!("panicked: {}", msg.replace('\\n', " ")), "no panic".to_string()));
     }
 }
 fn show(out: &Out) -> bool {
@@ -43,6 +51,7 @@ fn show(out: &Out) -> bool {
 fn main() {
     let a: Vec<String> = std::env::args().collect();
     let pid = a[1].as_str();
+    std::panic::set_hook(Box::new(|_| {}));
     if a[2] == "bytes" {
         let mut s = BytesSrc::parse(&a[3..]);
         let mut out = vec![];
